@@ -102,6 +102,43 @@ theorem C04_offsets_true (m : Nat) (chunks : List Bytes) (o n : Nat)
   simp only [Nat.zero_add, Nat.sub_zero] at this
   exact ⟨this.2.2.1, this.2.2.2⟩
 
+/-- Feeding an appended list of calls: the later calls continue from the state the earlier calls left. -/
+theorem C04_calls_append (m : Nat) (s : PyDec) (a b : List Bytes) :
+    pyFeed m s (a ++ b) =
+      ((pyFeed m s a).1 ++ (pyFeed m (pyFeed m s a).2 b).1, (pyFeed m (pyFeed m s a).2 b).2) := by
+  induction a generalizing s with
+  | nil => simp [pyFeed]
+  | cons d ds ih => simp [pyFeed, ih, List.append_assoc]
+
+/-- **Observers that arrive late** (a callback registered between two `on_data` calls, a caller that
+starts looking at the return values only then): what the calls `after` return, to a decoder that has
+already been given the calls `before`, is exactly the part of the scan of the whole stream that the
+earlier calls had not returned - nothing from before the registration is repeated, nothing after it
+is missing, the order is the scan's. -/
+theorem C04_late_observer (m : Nat) (before after : List Bytes) :
+    ((cfgPy m).run (before ++ after).flatten 0).msgs =
+      ((cfgPy m).run before.flatten 0).msgs ++
+        (pyFeed m (pyFeed m PyDec.init before).2 after).1 := by
+  have h := congrArg Prod.fst (C04_decoder_refines_scan m (before ++ after))
+  rw [C04_calls_append] at h
+  simp only at h
+  rw [← h, C04_decoder_refines_scan m before]
+
+/-- ... and each of those later results ends after the bytes of the earlier calls: it could not have
+been returned before the registration, because its last byte had not been supplied. -/
+theorem C04_late_observer_not_early (m : Nat) (before after : List Bytes) (o n : Nat)
+    (h : (o, n) ∈ (pyFeed m (pyFeed m PyDec.init before).2 after).1) :
+    ((cfgPy m).run before.flatten 0).off ≤ o ∧ o + n ≤ (before ++ after).flatten.length := by
+  have hall : (o, n) ∈ (pyFeed m PyDec.init (before ++ after)).1 := by
+    rw [C04_calls_append]; exact List.mem_append_right _ h
+  refine ⟨?_, (C04_offsets_true m _ o n hall).1⟩
+  -- the later calls are the scan resumed at the position the earlier calls reached
+  have hl := C04_late_observer m before after
+  rw [List.flatten_append, Cfg.run_append] at hl
+  have hl' := List.append_cancel_left hl
+  rw [← hl'] at h
+  exact (Cfg.sound_mem (Cfg.run_sound (c := cfgPy m) _ _) h).1
+
 /-! Non-vacuity: a concrete 24-byte message (payload 0, correct CRC) split over three calls with
 junk in front is returned once, at offset 3. -/
 def c04Example : Bytes :=
@@ -109,5 +146,8 @@ def c04Example : Bytes :=
 
 -- executable sanity check of the model (a test, not a theorem)
 #guard (pyFeed 16777216 PyDec.init [[1, 0x2E, 3] ++ c04Example.take 5, c04Example.drop 5, [9]]).1 == [(3, 24)]
+-- a late observer (after the first call) sees the message; one arriving after the second call sees nothing more
+#guard (pyFeed 16777216 (pyFeed 16777216 PyDec.init [[1, 0x2E, 3] ++ c04Example.take 5]).2 [c04Example.drop 5, [9]]).1 == [(3, 24)]
+#guard (pyFeed 16777216 (pyFeed 16777216 PyDec.init [[1, 0x2E, 3] ++ c04Example.take 5, c04Example.drop 5]).2 [[9]]).1 == []
 
 end FeVerif
